@@ -48,8 +48,15 @@ def run(tier):
             c.sc, c.profile, c.mode, c.seed = sc, "shared_signal", m, seed * 1000 + k
             cases.append(c)
 
+    for k in range(12 if tier == "quick" else 200):
+        sc = gen.gen_fd_error(seed * 1000 + k)
+        for m in ("loop", "dispatch"):
+            c = cc.Case()
+            c.sc, c.profile, c.mode, c.seed = sc, "fd_error", m, seed * 1000 + k
+            cases.append(c)
+
     def oracle(case):
-        return model_events.check_c03(case, stats, conservation=(case.profile in ("sources", "shared_signal")))
+        return model_events.check_c03(case, stats, conservation=(case.profile in ("sources", "shared_signal", "fd_error")))
 
     def relevant(case):
         return sum(1 for r in case.recs if r.k == "V" and r.slot != 0) >= 3
